@@ -938,3 +938,78 @@ func init() {
 	registry["C11"].Meta.Rules["C11.16"] = "a serializer fills the buffer it made: in every loop-free function that makes one byte buffer and puts at least three fields into it, the end of the furthest field and the buffer's length - where both are linear forms over the same symbols - are equal (a dropped or doubled cursor advance shifts the later fields and shows as a constant difference)"
 	registry["C11"].Rules = append(registry["C11"].Rules, func(c *Ctx, r *Result) { serializerFillsBufferRule(c, r, "C11.16", 3) })
 }
+
+// ---- a decode width is selected by equality (C11.18 / C06.16) ----
+//
+// if size == 4 { v = Uint32(..) } else { v = Uint64(..) }: the branch that decodes k bytes is taken when the stored size IS k.
+// With size >= 4 an 8-byte field is read through the 4-byte branch and loses its upper half (H5S_UNLIMITED becomes 2^32-1).
+func widthDispatchRule(c *Ctx, r *Result, rule string, floor int) {
+	n := 0
+	for _, fn := range c.LibFuncs() {
+		if fn.Blocks == nil {
+			continue
+		}
+		k2 := 0
+		for _, b := range fn.Blocks {
+			ifi, ok := b.Instrs[len(b.Instrs)-1].(*ssa.If)
+			if !ok {
+				continue
+			}
+			cmp, ok := ifi.Cond.(*ssa.BinOp)
+			if !ok {
+				continue
+			}
+			k, isK := constInt(cmp.Y)
+			if !isK || (k != 1 && k != 2 && k != 4 && k != 8) {
+				continue
+			}
+			switch cmp.Op {
+			case token.EQL, token.GEQ, token.GTR, token.LEQ, token.LSS:
+			default:
+				continue
+			}
+			// a test of the number of bytes available (len(data) >= 4) is a bounds guard, not a width selector
+			if lc, isCall := stripConv(cmp.X).(*ssa.Call); isCall {
+				if bl, isB := lc.Call.Value.(*ssa.Builtin); isB && (bl.Name() == "len" || bl.Name() == "cap") {
+					continue
+				}
+			}
+			// the true arm decodes exactly k bytes
+			decodes := false
+			for _, in := range b.Succs[0].Instrs {
+				call, isCall := in.(*ssa.Call)
+				if !isCall {
+					continue
+				}
+				name := ""
+				if call.Call.IsInvoke() {
+					name = call.Call.Method.Name()
+				} else if f := call.Call.StaticCallee(); f != nil {
+					name = f.Name()
+				}
+				if (name == "Uint16" && k == 2) || (name == "Uint32" && k == 4) || (name == "Uint64" && k == 8) {
+					decodes = true
+				}
+			}
+			if !decodes {
+				continue
+			}
+			n++
+			k2++
+			r.Check(cmp.Op == token.EQL, rule, fmt.Sprintf("%s#width-%d-arm-%d", c.Name(fn), k, k2), c.InstrPos(cmp), fmt.Sprintf("the arm that decodes %d bytes is selected by size == %d", k, k))
+		}
+	}
+	if n < floor {
+		r.Shortfall(c, rule, fmt.Sprintf("%s: only %d width-selected decode arms found (expected >= %d)", rule, n, floor))
+	}
+}
+
+func init() {
+	txt := "a decode width is selected by equality: where a branch on `size OP k` (k = 1, 2, 4, 8) leads to an arm that decodes exactly k bytes (UintN with N = 8k), OP is == (with >= an 8-byte maximum dimension is read through the 4-byte arm: H5S_UNLIMITED comes back as 2^32-1)"
+	registry["C11"].Meta.Rules["C11.18"] = txt
+	registry["C11"].Rules = append(registry["C11"].Rules, func(c *Ctx, r *Result) { widthDispatchRule(c, r, "C11.18", 4) })
+	registry["C06"].Meta.Rules["C06.16"] = txt + " (shared with C11.18)"
+	registry["C06"].Rules = append(registry["C06"].Rules, func(c *Ctx, r *Result) { widthDispatchRule(c, r, "C06.16", 4) })
+	registry["C11"].Meta.Rules["C11.17"] = registry["C06"].Meta.Rules["C06.10"] + " (shared with C06.10: the message the library's own version 0 root header ends with is such a record)"
+	registry["C11"].Rules = append(registry["C11"].Rules, func(c *Ctx, r *Result) { exactFitRule(c, r, "C11.17", 2) })
+}
